@@ -152,6 +152,45 @@ def run(F, tier, res):
     else:
         res.violate('MONOTONE', 'fn=%s;minus-index' % p, 'the minus index of alignment entries is not the enumerate() counter of the minus-lines loop', where=mir['span']['at'])
     res.rule('C06.MONOTONE', n3, 3, 'plus cursor only incremented by one; every entry naming it followed by the increment; minus index from enumerate()', discharged=ok3)
+    # ---- THRESHOLD: a candidate partner is rejected only by the distance test ("pairing honours the configured maximum distance";
+    # with the maximum at 1 every candidate must be accepted, so no other path may skip one)
+    n5 = ok5 = 0
+    cons = names.get('considered')
+    thr_params = {names.get('max_line_distance'), names.get('max_line_distance_for_naively_paired_lines')} - {None}
+    if cons is None or not thr_params:
+        res.anchor_missing('`considered` counter / distance threshold parameters of infer_edits')
+    else:
+        thr_sw = []
+        for (sb, op, arms, other) in Ru.switches(F, p):
+            roots = F.trace(p, op)
+            if any(r[0] == 'binop' and r[1] in ('Le', 'Lt', 'Ge', 'Gt') for r in roots):
+                from .c20 import _find_binop_rvalue
+                rv = _find_binop_rvalue(F, p, op)
+                if rv is None:
+                    continue
+                ps = {r[1] for o in rv[2:4] for r in F.trace(p, o) if r[0] == 'param' and not r[2]}
+                if ps & thr_params:
+                    tt, ft = Ru.bool_edges(arms, other)
+                    if Ru.negations(F, p, op) % 2 == 1:
+                        tt, ft = ft, tt
+                    # `distance <= max` : rejected on the false edge; `distance > max`: on the true edge
+                    le = rv[1] in ('Le', 'Lt')
+                    dist_left = not any(r[0] == 'param' and r[1] in thr_params for r in F.trace(p, rv[2]))
+                    reject = ft if (le == dist_left) else tt
+                    thr_sw.append((sb, reject))
+        for bi, blk in enumerate(F.blocks(p)):
+            if blk['cleanup']:
+                continue
+            for st in blk['s']:
+                if st[0] == 'assign' and st[1]['l'] == cons and not st[1]['p'] and not (st[2][0] == 'use' and 'const' in st[2][1]):
+                    n5 += 1
+                    if any(e is not None and (Ru.edge_dominates(F, p, sb, e, bi) or e == bi) for sb, e in thr_sw):
+                        ok5 += 1
+                    else:
+                        res.violate('THRESHOLD', 'fn=%s;reject-without-distance-test' % p, 'a candidate partner line is skipped (`considered` advanced) on a path that has not failed the distance test: '
+                                    'pairing then depends on something other than the configured maximum distance (with the maximum at 1 the i-th removed line must pair with the i-th added line)',
+                                    where=mir['span']['at'])
+    res.rule('C06.THRESHOLD', n5, 1, 'rejections of a candidate partner, each on the failing edge of the distance comparison', discharged=ok5)
     # ---- ZERO: the zero-line painter uses zero_style and does not go through edit inference
     n4 = ok4 = 0
     pz = [q for q in F.fn_bodies if q.endswith('::paint_zero_line')]
